@@ -125,6 +125,56 @@ def earlyStopOK (after : DB) (h : Handle) (c : Call) (obs : Obs) : Bool :=
     (match lookup after h id with | some t => t.state == .stopping | none => false)
   | _, _ => true
 
+/-! ### documented effect of the single calls -/
+
+def isMeasurement (m : Option Meas) : Obs → Bool
+  | .measurement x => x == m
+  | _ => false
+
+def isRuntimeError : Obs → Bool
+  | .exc .runtimeError => true
+  | _ => false
+
+def openStudy (before : DB) (h : Handle) : Bool :=
+  match findStudy before h.owner h.sid with
+  | some st => !st.immutable
+  | none => false
+
+def activeTrial (before : DB) (h : Handle) (id : Nat) : Bool :=
+  openStudy before h && (match lookup before h id with | some t => t.state == .active | none => false)
+
+/-- "If `measurement` is provided, then Vizier writes it as the trial's final measurement and returns it" -/
+def completeFinalOK (before after : DB) (h : Handle) (id : Nat) (m : Meas) (obs : Obs) : Bool :=
+  !(completable before h id && m.hasMetrics) ||
+    ((match lookup after h id with | some t => t.final == some m | none => false) && isMeasurement (some m) obs)
+
+/-- `Trial.stop`: "Asks to change the trial status to STOPPING" — an ACTIVE trial is STOPPING afterwards -/
+def stopOK (before after : DB) (h : Handle) (id : Nat) : Bool :=
+  !activeTrial before h id || (match lookup after h id with | some t => t.state == .stopping | none => false)
+
+/-- `Study.set_state(s)`: the study is stored in state `s` -/
+def setStateOK (before after : DB) (h : Handle) (s : CState) : Bool :=
+  match findStudy before h.owner h.sid with
+  | none => true
+  | some _ => (match findStudy after h.owner h.sid with | some st => st.state == s.toProto | none => false)
+
+/-- `update_metadata`: "Raises RuntimeError: If service reported an error" — metadata for a trial that does not exist -/
+def mdErrorOK (before : DB) (h : Handle) (id : Nat) (kvs : List (K × String)) (obs : Obs) : Bool :=
+  !(openStudy before h && (lookup before h id).isNone && !kvs.isEmpty) || isRuntimeError obs
+
+/-- `Trial.delete`: the trial is gone -/
+def deleteOK (before after : DB) (h : Handle) (id : Nat) : Bool :=
+  !(openStudy before h && (lookup before h id).isSome) || (lookup after h id).isNone
+
+def effectsOK (before after : DB) (h : Handle) (c : Call) (obs : Obs) : Bool :=
+  match c with
+  | .complete id (some m) _ => completeFinalOK before after h id m obs
+  | .stop id => stopOK before after h id
+  | .setState s => setStateOK before after h s
+  | .updateMetadata (some id) kvs => mdErrorOK before h id kvs obs
+  | .deleteTrial id => deleteOK before after h id
+  | _ => true
+
 /-- lifecycle of every study between two observations (the predicates of C01 / C02) -/
 def lifecycleOK (before after : DB) : Bool :=
   after.studies.all fun st' =>
